@@ -18,7 +18,7 @@ RUNROOT = os.path.join(cl.CACHE, "run")
 
 STD = [("くるま", "車", "一般名詞"), ("くる", "来", "カ行変"), ("くる", "繰", "ラ行五段"), ("かこ", "過去", "一般名詞"),
        ("しんか", "進化", "サ変名詞"), ("やま", "山", "一般名詞"), ("やまだ", "山田", "固有名詞"), ("たか", "高", "形容詞"),
-       ("ほん", "本", "一般名詞"), ("き", "木", "一般名詞"), ("こーひー", "珈琲", "一般名詞")]
+       ("ほん", "本", "一般名詞"), ("き", "木", "一般名詞"), ("こーひー", "珈琲", "一般名詞"), ("さけ", "酒", "一般名詞"), ("さけ", "鮭", "一般名詞")]
 ANC = [("まで", "まで", "副助詞"), ("で", "で", "格助詞"), ("は", "は", "副助詞"), ("しん", "新", "接頭辞"), ("か", "化", "接尾辞"),
        ("お", "御", "接頭辞"), ("ほん", "本", "助数詞"), ("ない", "ない", "助動詞")]
 TANKAN = [("き", "木", "一般名詞"), ("き", "気", "一般名詞"), ("やま", "山", "一般名詞")]
@@ -353,3 +353,60 @@ def compare_with_model(run, runners):
             if rr != mm:
                 dis.append({"history": hi, "op": list(op), "real": rr[:300], "model": mm[:300]})
     return dis
+
+
+def concurrent_phase(bindir, dic, wd, tag, seconds=1.5, clients=4, registrations=0, env=None):
+    """Several connections at once: conversion+confirmation pairs (and optionally registrations that must become
+    visible) against one real server; returns (observation, list of problems)."""
+    import threading
+    srv = Server(bindir, dic, os.path.join(wd, "user-" + tag), workers=4, env=env)
+    problems = []
+    obs = {"clients": clients, "pairs": 0, "registrations": 0}
+    if not srv.wait_listening():
+        return obs, [("start", "server did not start")]
+    stop = threading.Event()
+    lock = threading.Lock()
+
+    def pairs(i):
+        while not stop.is_set():
+            res = srv.conv("くるまで", timeout=10.0)
+            if res[0] != "ok":
+                problems.append(("unanswered", "conversion: %s" % res[0]))
+                return
+            st, _ = srv.rpc("UpdateFrequency", {"session_id": res[1]["session_id"], "candidate_id": "0"}, timeout=10.0)
+            if st != "ok":
+                problems.append(("unanswered", "confirmation: %s" % st))
+                return
+            with lock:
+                obs["pairs"] += 1
+
+    ths = [threading.Thread(target=pairs, args=(i,)) for i in range(clients)]
+    for t in ths:
+        t.start()
+    t0 = time.time()
+    k = 0
+    while time.time() - t0 < seconds or k < registrations:
+        if k < registrations:
+            k += 1
+            rd, w = "てすと", "試験%d" % k
+            st, _ = srv.rpc("RegisterWord", {"kind": "CommonNoun", "reading": rd, "word": w}, timeout=10.0)
+            if st != "ok":
+                problems.append(("unanswered", "registration: %s" % st))
+                break
+            seen = wait_until(lambda: w in (texts(srv.conv(rd, timeout=10.0)) or []), 5.0)
+            if not seen:
+                problems.append(("not-convertible", "registered %s/%s is not offered within 5 s while other clients convert" % (rd, w)))
+                break
+            obs["registrations"] += 1
+        else:
+            time.sleep(0.05)
+    stop.set()
+    for t in ths:
+        t.join(30)
+    if any(t.is_alive() for t in ths):
+        problems.append(("unanswered", "a client is still waiting for an answer after 30 s"))
+    probe = srv.conv("くるまで", timeout=10.0)
+    if probe[0] != "ok":
+        problems.append(("wedged", "probe conversion after the concurrent phase: %s" % probe[0]))
+    srv.stop()
+    return obs, problems
